@@ -38,6 +38,8 @@ func convergeRun(enc *fecEncoder, dec *fecDecoder, rng *vrng, limit int) (fed in
 	return fed, dec.dataShards == d && dec.parityShards == p && !dec.shouldTune
 }
 
+var c16Largest = [][2]int{{250, 5}, {254, 1}, {128, 127}, {1, 254}, {253, 1}, {127, 127}, {3, 251}, {200, 53}, {252, 1}, {10, 243}, {251, 1}, {125, 126}}
+
 func TestVerifC16(t *testing.T) {
 	rec := newRec(t, "C16")
 	defer rec.finish(t)
@@ -77,6 +79,11 @@ func TestVerifC16(t *testing.T) {
 			tot := rng.between(2, 255)
 			pr.ds = rng.between(1, tot-1)
 			pr.ps = tot - pr.ds
+			// the largest groups the statement covers (d+p = 255) and their
+			// neighbours first: the detection window is only just long enough
+			if k := q - len(pairs); k < len(c16Largest) {
+				pr.ds, pr.ps = c16Largest[k][0], c16Largest[k][1]
+			}
 			if rng.chance(0.3) {
 				pr.dr, pr.pr = 1, 1 // the decoder a FEC-less receiver creates lazily
 			} else {
